@@ -246,10 +246,63 @@ def translate_certs():
         info[sn] = st
     return defs, info
 
+def translate_mempool():
+    """seal guards of the batch maker, quorum test of the quorum waiter (mempool crate)"""
+    defs, info = [], {}
+    bm = strip_comments(open(f"{REPO}/mempool/src/batch_maker.rs").read())
+    body = fn_body(bm, "run")
+    cs = conds(body, "if")
+    c = pick(cs, [r'batch_size'], "BatchMaker::run size guard")
+    t = parse(c, {"self.current_batch_size": "size", "self.batch_size": "batchSize"})
+    defs.append(("sealOnSize", ["size", "batchSize"], "prop", lean(t, "prop"), f"BatchMaker::run: seal after a transaction  (`if {c}`)"))
+    info["sealOnSize"] = c
+    rest = [x for x in cs if x != c]
+    if len(rest) != 1:
+        raise NotTranslatable(f"BatchMaker::run: expected exactly one more `if` (the timer guard), found {rest!r}")
+    tg = rest[0]
+    tg2 = re.sub(r'self\s*\.\s*current_batch\s*\.\s*is_empty\s*\(\s*\)', 'BATCHEMPTY', tg)
+    t = parse(tg2, {"BATCHEMPTY": "batchEmpty", "self.current_batch_size": "size", "self.batch_size": "batchSize"})
+    defs.append(("sealOnTimer", ["batchEmpty", "size"], "boolmixed", None, f"BatchMaker::run: seal when the timer fires  (`if {tg}`)"))
+    defs[-1] = ("sealOnTimer", [("batchEmpty", "Bool"), ("size", "Nat")], "bool", lean_mixed(t), f"BatchMaker::run: seal when the timer fires  (`if {tg}`)")
+    info["sealOnTimer"] = tg
+    n = norm(body)
+    for pat, what in [(r'self\.current_batch_size \+= transaction\.len\(\);', "`current_batch_size += transaction.len()`"),
+                      (r'self\.current_batch\.push\(transaction\);', "`current_batch.push(transaction)`")]:
+        if not re.search(pat, n): raise NotTranslatable("BatchMaker::run: " + what + " not found")
+    sl = norm(fn_body(bm, "seal"))
+    for pat, what in [(r'self\.current_batch_size = 0;', "`current_batch_size = 0` in seal"),
+                      (r'self\.current_batch\.drain\(\.\.\)\.collect\(\)', "`current_batch.drain(..)` in seal")]:
+        if not re.search(pat, sl): raise NotTranslatable("BatchMaker::seal: " + what + " not found")
+    qw = strip_comments(open(f"{REPO}/mempool/src/quorum_waiter.rs").read())
+    body = fn_body(qw, "run")
+    c = pick(conds(body, "if"), [r'total_stake', r'quorum_threshold'], "QuorumWaiter::run")
+    c2 = re.sub(r'self\s*\.\s*committee\s*\.\s*quorum_threshold\s*\(\s*\)', 'QUORUM', c)
+    t = parse(c2, {"total_stake": "total", "QUORUM": "quorum"})
+    defs.append(("waiterQuorum", ["total", "quorum"], "prop", lean(t, "prop"), f"QuorumWaiter::run: the batch is forwarded  (`if {c}`)"))
+    info["waiterQuorum"] = c
+    n = norm(body)
+    for pat, what in [(r'let mut total_stake = self\.stake;', "`let mut total_stake = self.stake`"),
+                      (r'total_stake \+= stake;', "`total_stake += stake`")]:
+        if not re.search(pat, n): raise NotTranslatable("QuorumWaiter::run: " + what + " not found")
+    return defs, info
+
+def lean_mixed(t):
+    """Bool-valued rendering where variables may already be Bool"""
+    if t[0] == 'var': return t[1]
+    if t[0] == '!': return f"(!{lean_mixed(t[1])})"
+    if t[0] in ('&&', '||'): return f"({lean_mixed(t[1])} {t[0]} {lean_mixed(t[2])})"
+    return lean(t, "bool")
+
 def render(defs):
     out = ["/-", "GENERATED by /verif/tools/translate_guards.py from the current /repo/consensus/src/core.rs — do not edit.",
            "The decision guards of `Core`, as the source states them now.  `Model/Node.lean` calls them.", "-/", "namespace Gen", ""]
     for name, params, kind, body, doc in defs:
+        if params and isinstance(params[0], tuple):
+            sig = " ".join(f"({n} : {ty})" for n, ty in params)
+            out.append(f"/-- {doc} -/")
+            out.append(f"@[reducible] def {name} {sig} : Bool := {body}")
+            out.append("")
+            continue
         ps = " ".join(params)
         out.append(f"/-- {doc} -/")
         if kind == "prop":
@@ -267,6 +320,8 @@ def main():
         defs, info = translate()
         d2, i2 = translate_certs()
         defs += d2; info.update(i2)
+        d3, i3 = translate_mempool()
+        defs += d3; info.update(i3)
     except NotTranslatable as e:
         print("NOT-TRANSLATABLE: " + str(e)); sys.exit(3)
     changed = write_if_changed(out, render(defs))
